@@ -90,6 +90,7 @@ func buildVC(w *World, c *Contract) (vc *FuncVC) {
 		args = append(args, v)
 		vc.Inputs = append(vc.Inputs, inputSym{p.Name(), p.Type(), v})
 	}
+	e.unrollCopies = c.Options["unroll-appends"]
 	h0 := Heap{"#entry": "1"}
 	if c.Options["with-init"] {
 		// package-level tables: execute the package initialiser symbolically first, so that
